@@ -187,18 +187,41 @@ def run(ctx: Ctx) -> None:
     if not (isinstance(pa_, ast.Assign) and isinstance(pa_.targets[0], ast.Tuple) and len(pa_.targets[0].elts) == 2 and all(isinstance(e, ast.Name) for e in pa_.targets[0].elts)):
         raise AnalysisError("C19: negotiation result is not unpacked into two names")
     chosen, custom = (e.id for e in pa_.targets[0].elts)  # type: ignore[union-attr]
-    pubs = _flag_calls(preq, PUB, "set")
-    if len(pubs) != 1 or not pubs[0].args:
+    pubs = [c for c in _flag_calls(preq, PUB, "set") if c.args]
+    if not pubs:
         raise AnalysisError("anchor=codec publication in process_request")
-    okp = True
-    for m, want in ((Z, "zstd"), (G, "gzip"), (None, None)):
-        try:
-            got = xeval(pubs[0].args[0], {chosen: m, "Encoding": E})
-        except Unknown:
-            raise AnalysisError(f"C19: cannot evaluate `{txt(pubs[0].args[0])}`") from None
-        okp = okp and got == want
-    ctx.check(okp, "RF-TABLE", "published-codec-is-negotiated-codec", preq, pubs[0], ok="the producer is told exactly the negotiated codec (zstd/gzip) or none",
-              bad=f"`{txt(pubs[0].args[0])}` does not publish the negotiated codec: the producer compresses with a coding other than the one announced")
+    # The codec variable is per-thread state that outlives the request: for every negotiation outcome, every path
+    # from the negotiation to the end of process_request must publish, and what it publishes must be that outcome
+    # (a path that publishes nothing leaves the previous request's codec in place).
+    from ._g3_helpers import Explorer as _Explorer
+
+    exq = _Explorer(ctx, preq, follow_exc=False)
+    pst = pcfg.stmt_of(picks[0])
+    pub_done: set[int] = set()
+    for c in pubs:
+        pub_done |= pcfg.done(pcfg.stmt_of(c))
+    okp, stale_for, wrong_for = True, [], []
+    for m, want, label in ((Z, "zstd", "zstd"), (G, "gzip", "gzip"), (None, None, "no coding")):
+        base = {chosen: m, custom: False, "Encoding": E}
+        starts = [(v, dict(base)) for d in pcfg.done(pst) for v in pcfg.succ[d] if pcfg.label.get((d, v), "") != "exc"]
+        o = exq.run(starts=starts, avoid=pub_done)
+        if o.returns_normally:
+            stale_for.append(label)
+        o2 = exq.run(starts=starts)
+        for c in pubs:
+            if not o2.reaches(c):
+                continue
+            try:
+                got = xeval(c.args[0], {chosen: m, "Encoding": E})
+            except Unknown:
+                raise AnalysisError(f"C19: cannot evaluate `{txt(c.args[0])}`") from None
+            if got != want:
+                wrong_for.append(f"{label}: `{txt(c.args[0])[:60]}` = {got!r}")
+    okp = not stale_for and not wrong_for
+    ctx.check(okp, "RF-TABLE", "published-codec-is-negotiated-codec", preq, pubs[0], ok="for every negotiation outcome (zstd / gzip / none) every path through process_request publishes exactly that codec to the producer",
+              bad=(f"when the negotiation yields {stale_for} process_request can finish without publishing a codec: on a reused worker thread the producer still sees the previous request's codec and "
+                   "compresses a response that is announced as uncompressed (or with another coding); " if stale_for else "")
+              + ("; ".join(wrong_for) + ": the producer compresses with a coding other than the one announced" if wrong_for else ""))
     stored: dict[str, str] = {}
     for n in walk_scope(preq.node):
         if isinstance(n, ast.Assign) and len(n.targets) == 1 and isinstance(n.targets[0], ast.Attribute) and isinstance(n.value, ast.Name) and n.value.id in (chosen, custom):
